@@ -697,3 +697,24 @@ def replay(case) -> List[Violation]:
     if v is None and not case.get("names"):
         v = judge_factory(case["expr"])
     return [Violation(v[0] + (("|variables=" + case["names"]) if case.get("names") else ""), v[1], case)] if v else []
+
+
+
+# ---------------------------------------------------------------------------------------------
+# environment grid (mc/envgrid.py): what is accepted, what is rejected and what an accepted expression can reach is the same in every
+# process (host logging at DEBUG, python -O, warnings as errors, other hash seeds ...)
+
+def env_cases(tier: str):
+    from mc import envgrid
+
+    cases = build_cases("quick")[0]
+    sel = envgrid.pick([c for c in cases if len(c) == 2], 400 if tier == "quick" else 4000)
+    emb = [("corpus:" + name, f(e)) for e in CORPUS for name, f in corpus_contexts()[:6]]
+    return [{"label": c[0], "src": c[1]} for c in sel + emb]
+
+
+def env_observe(case):
+    o, v = judge(case["src"])
+    if v is None:
+        v = judge_factory(case["src"])
+    return {"outcome": o, "judged": v[0] if v else None}
